@@ -63,6 +63,108 @@ func ruleC06(c *Ctx) {
 		R.Check(ok && got.Equal(want), "render.(*Renderer)."+hp.name, c.FPos(fn), want.String(), map[bool]string{true: got.String(), false: shortKey(res)}[ok])
 	}
 
+	// The same on the state SetRasterizer leaves when it is called after Reset (a documented order: re-target a
+	// Renderer that holds a graphic's metadata): the helpers must be the maps of the rectangle and viewBox that are
+	// stored THEN - anything the Renderer caches beside scale and bias has to be refreshed there too. The reference
+	// is built from the values found in the state (z.r, z.viewBox), case by case, not from field names of the cache.
+	if sr := c.Method("render", "Renderer", "SetRasterizer", true); sr != nil {
+		in0 := r.c.Interp()
+		r.c.newRendHooks(in0)
+		_, mem2, _ := in0.Run(sr, nil, r.resetM.Clone())
+		z0 := in0.ParamObj("z", r.T)
+		if mem2 == nil {
+			R.Unknown("render.(*Renderer).SetRasterizer#helpers", c.FPos(sr), "SetRasterizer does not return on the state Reset leaves")
+		} else {
+			env := r.env()
+			under := func(dotted string, conds []*sym.Term) (poly.Rat, bool) {
+				pth := r.fieldPath(dotted)
+				if pth == nil {
+					return poly.Rat{}, false
+				}
+				var hit []poly.Rat
+				for _, cs := range env.Cases(in0.LoadAt(mem2, z0, pth)) {
+					if !sym.CondsContradict(append(append([]*sym.Term{}, cs.Conds...), conds...)) {
+						hit = append(hit, cs.Val)
+					}
+				}
+				if len(hit) != 1 {
+					return poly.Rat{}, false
+				}
+				return hit[0], true
+			}
+			for _, hp := range helpers {
+				fn := c.Method("render", "Renderer", hp.name, true)
+				if fn == nil {
+					continue
+				}
+				in := r.c.Interp()
+				r.c.newRendHooks(in)
+				res, _, _ := in.Run(fn, nil, mem2.Clone())
+				arg := "x"
+				if strings.HasSuffix(hp.name, "Y") {
+					arg = "y"
+				}
+				construct := "render.(*Renderer)." + hp.name + "#after-SetRasterizer"
+				cases := env.Cases(res)
+				okAll := len(cases) > 0
+				detail := ""
+				// split further by the cases of the stored rectangle (as given / normalised when empty)
+				var split []poly.Case
+				for _, cs := range cases {
+					for _, rc := range env.Cases(in0.LoadAt(mem2, z0, r.fieldPath("r.Max.X"))) {
+						m := append(append([]*sym.Term{}, cs.Conds...), rc.Conds...)
+						if !sym.CondsContradict(m) {
+							split = append(split, poly.Case{Conds: m, Val: cs.Val})
+						}
+					}
+				}
+				for _, cs := range split {
+					x0, ok0 := under("r.Min.X", cs.Conds)
+					x1, ok1 := under("r.Max.X", cs.Conds)
+					y0, ok2 := under("r.Min.Y", cs.Conds)
+					y1, ok3 := under("r.Max.Y", cs.Conds)
+					mx, ok4 := under("viewBox.MinX", cs.Conds)
+					Mx, ok5 := under("viewBox.MaxX", cs.Conds)
+					my, ok6 := under("viewBox.MinY", cs.Conds)
+					My, ok7 := under("viewBox.MaxY", cs.Conds)
+					if !(ok0 && ok1 && ok2 && ok3 && ok4 && ok5 && ok6 && ok7) {
+						okAll = false
+						detail = "the rectangle or viewBox stored by SetRasterizer has no single value under " + condKey(cs.Conds)
+						break
+					}
+					dx, dy, w, h := x1.Sub(x0), y1.Sub(y0), Mx.Sub(mx), My.Sub(my)
+					a := v(arg)
+					var want poly.Rat
+					switch hp.name {
+					case "absX":
+						want = a.Sub(mx).Mul(dx).Div(w)
+					case "absY":
+						want = a.Sub(my).Mul(dy).Div(h)
+					case "relX":
+						want = a.Mul(dx).Div(w)
+					case "relY":
+						want = a.Mul(dy).Div(h)
+					case "unabsX":
+						if dx.IsZero() {
+							continue // an empty rectangle: nothing can be drawn, the inverse does not exist
+						}
+						want = a.Mul(w).Div(dx).Add(mx)
+					case "unabsY":
+						if dy.IsZero() {
+							continue
+						}
+						want = a.Mul(h).Div(dy).Add(my)
+					}
+					if !cs.Val.Equal(want) {
+						okAll = false
+						detail = cs.Val.String() + " under " + condKey(cs.Conds) + " (wanted " + want.String() + ")"
+					}
+				}
+				R.Check(okAll, construct, c.FPos(fn), "the map of the rectangle and viewBox stored at that point", detail)
+			}
+		}
+	}
+
 	// C06.1: with the helpers kept opaque, every cubic gets absX results in x positions and absY results in y positions
 	R.Rule("C06.1", "every CubeTo issued for an arc receives results of the x map in x positions and of the y map in y positions (coordinate-space discipline)", 6)
 	{
